@@ -421,8 +421,15 @@ pub fn run_world<W: World>(world: Arc<W>, cfg: &RunConfig) -> RunReport {
                         prog.active.store(true, Ordering::Relaxed);
                         prog.tick();
                         let base = world.generate(&mut rng, tier);
-                        if i < first_run + 3 {
-                            samples.lock().unwrap().push((i, world.to_json(&base)));
+                        if i < first_run + 64 {
+                            // the first three scenarios whose rendering is reasonably small
+                            let mut g = samples.lock().unwrap();
+                            if g.len() < 64 {
+                                let j = world.to_json(&base);
+                                if j.to_string().len() < 20_000 {
+                                    g.push((i, j));
+                                }
+                            }
                         }
                         let out = world.explore(&base, tier, &mut cov, prog);
                         prog.active.store(false, Ordering::Relaxed);
@@ -534,7 +541,7 @@ pub fn run_world<W: World>(world: Arc<W>, cfg: &RunConfig) -> RunReport {
         coverage.insert("rule".into(), json!(world.rule()));
         coverage.insert(
             "samples".into(),
-            Value::Array(samples.into_iter().map(|(_, v)| v).collect()),
+            Value::Array(samples.into_iter().take(3).map(|(_, v)| v).collect()),
         );
         coverage.insert("events_executed".into(), json!(cov.events));
         coverage.insert("discarded_runs".into(), json!(cov.discards));
